@@ -8,7 +8,7 @@ out=/verif/seeded/RESULTS.txt
 for d in /verif/seeded/*/; do
   s=$(basename $d); id=${s%%-*}
   checks=$id
-  case $s in C10-a) checks="C05";; C01-a) checks="C01 C07";; esac
+  case $s in C10-a) checks="C05";; C01-a) checks="C01 C07";; C10-b) checks="C10 C08";; esac
   [ -n "$1" ] && [[ ! " $* " =~ " $s " ]] && continue
   if ! git -C $R apply --check $d/patch.diff 2>/dev/null; then echo "$s - no - patch-does-not-apply" >> $out; continue; fi
   for c in $checks; do
